@@ -6,7 +6,7 @@ package trafficlogger
 // trafficStatsServerImpl as its TrafficLogger, real clients (core/client) over loopback QUIC.
 // A generated script connects, rejects, closes, proxies bytes through a local echo server and
 // kicks; after every step the harness waits for GET /online to show the expected census
-// (bounded wait: a stale or wrong listing is a violation), and at the end compares GET /traffic
+// (bounded wait of 15 s: a stale or wrong listing is a violation), and at the end compares GET /traffic
 // with the bytes that went through.
 
 import (
@@ -139,7 +139,7 @@ func c15E2E(c c15Case, steps []c15Step, res map[string]any) {
 
 	// wait (bounded) until the listing equals the expected census
 	census := func() ([][]int64, bool) {
-		deadline := time.Now().Add(5 * time.Second)
+		deadline := time.Now().Add(15 * time.Second)
 		for {
 			r := httpOp("GET", "/online", "")
 			seen := make([]int64, n)
@@ -216,7 +216,7 @@ func c15E2E(c c15Case, steps []c15Step, res map[string]any) {
 					return err
 				}
 				defer conn.Close()
-				_ = conn.SetDeadline(time.Now().Add(5 * time.Second))
+				_ = conn.SetDeadline(time.Now().Add(20 * time.Second))
 				msg := vGenData(7, uint64(si), st.N)
 				if _, err := conn.Write(msg); err != nil {
 					return err
@@ -251,7 +251,7 @@ func c15E2E(c c15Case, steps []c15Step, res map[string]any) {
 		}
 		on, good := census()
 		if !good {
-			fail("step %d (%s): GET /online shows %v, expected census %v (after 5s)", si, st.A, on, live)
+			fail("step %d (%s): GET /online shows %v, expected census %v (after 15s)", si, st.A, on, live)
 		}
 		obs = append(obs, c15E2EObs{Step: si, Result: result, Online: on})
 	}
